@@ -118,30 +118,30 @@ Definition sum_rel (Ts : list (list (upd K))) T : Prop :=
   Forall (fun Ti => mat_eq Ti T) Ts /\
   forall mm r, is_vec mm = true -> vecv T mm r = fsum (map (fun Ti => vecv Ti mm r) Ts).
 Theorem solves_sum Ts T (xs : list ((Z -> K) * (Z -> K))) : sum_rel Ts T ->
-  Forall2 (fun Ti x => solves Ti (fst x) (snd x)) Ts xs ->
+  Forall2 (fun Ti p => solves Ti (fst p) (snd p)) Ts xs ->
   solves T (vsum (map fst xs)) (vsum (map snd xs)).
 Proof.
   intros [HM HV] HS.
   assert (G : forall mmG mmB mmV (res : list (upd K) -> (Z -> K) -> (Z -> K) -> Z -> K),
      is_vec mmG = false -> is_vec mmB = false -> is_vec mmV = true ->
      (forall T' v ib i, res T' v ib i = fsub (fadd (lin T' mmG i v) (lin T' mmB i ib)) (vecv T' mmV i)) ->
-     forall i, Forall2 (fun Ti x => res Ti (fst x) (snd x) i = f0) Ts xs ->
+     forall i, Forall2 (fun Ti p => res Ti (fst p) (snd p) i = f0) Ts xs ->
      res T (vsum (map fst xs)) (vsum (map snd xs)) i = f0).
   { intros mmG mmB mmV res hG hB hV Hres i HF. rewrite Hres, (HV mmV i hV).
-    clear HV HS. revert HM. induction HF as [|Ti x Ts' xs' E HF IH]; intros HM; cbn [map vsum fsum].
+    clear HV HS. revert HM. induction HF as [|Ti p Ts' xs' E HF IH]; intros HM; cbn [map vsum fsum].
     - rewrite !lin_vzero. ring.
     - inversion HM as [|? ? Hm HM']; subst. specialize (IH HM').
       rewrite !lin_vadd. rewrite Hres in E.
-      rewrite <- (Hm mmG i (fst x) hG), <- (Hm mmB i (snd x) hB).
-      transitivity (fadd (fsub (fadd (lin Ti mmG i (fst x)) (lin Ti mmB i (snd x))) (vecv Ti mmV i))
+      rewrite <- (Hm mmG i (fst p) hG), <- (Hm mmB i (snd p) hB).
+      transitivity (fadd (fsub (fadd (lin Ti mmG i (fst p)) (lin Ti mmB i (snd p))) (vecv Ti mmV i))
                          (fsub (fadd (lin T mmG i (vsum (map fst xs'))) (lin T mmB i (vsum (map snd xs'))))
                                (fsum (map (fun Ti0 => vecv Ti0 mmV i) Ts')))); [ring|].
       rewrite E, IH. ring. }
   split; intros i Hi.
   - apply (G MG MB MIs (fun T' => node_res T')); try reflexivity.
-    clear -HS Hi. induction HS as [|Ti x Ts' xs' [A _] HS IH]; constructor; [apply A; exact Hi | exact IH].
+    clear -HS Hi. induction HS as [|Ti p Ts' xs' [A _] HS IH]; constructor; [apply A; exact Hi | exact IH].
   - apply (G MC MD MEs (fun T' => br_res T')); try reflexivity.
-    clear -HS Hi. induction HS as [|Ti x Ts' xs' [_ B] HS IH]; constructor; [apply B; exact Hi | exact IH].
+    clear -HS Hi. induction HS as [|Ti p Ts' xs' [_ B] HS IH]; constructor; [apply B; exact Hi | exact IH].
 Qed.
 
 (* ---- uniqueness ---------------------------------------------------------- *)
@@ -191,7 +191,7 @@ Theorem response_homogeneous k T Tk nn mm v ib vk ibk : scale_rel k T Tk ->
 Proof. intros R HI S Sk. apply (solves_unique Tk); [exact HI | exact Sk |].
   apply (solves_scale k T); assumption. Qed.
 Theorem response_sum Ts T xs nn mm v ib : sum_rel Ts T -> injective_on T nn mm ->
-  Forall2 (fun Ti x => solves Ti (fst x) (snd x)) Ts xs -> solves T v ib ->
+  Forall2 (fun Ti p => solves Ti (fst p) (snd p)) Ts xs -> solves T v ib ->
   agree nn mm v ib (vsum (map fst xs)) (vsum (map snd xs)).
 Proof. intros R HI HS S. apply (solves_unique T); [exact HI | exact S |].
   apply (solves_sum Ts); assumption. Qed.
@@ -220,7 +220,7 @@ Example ex_injective (g i : K) : g <> f0 -> injective_on (Tg g i) 1 0.
 Proof. intros Hg v ib [A _]. split; intros j Hj; [|lia].
   assert (j = 0) by lia. subst j. specialize (A 0 (Z.le_refl 0)). cbn in A. unfold vzero.
   destruct (mul_eq0 K g (v 0)) as [E|E]; [|contradiction|exact E].
-  transitivity (fadd (fadd (fmul (fmul f1 g) (v 0)) f0) f0); [ring | exact A]. Qed.
+  rewrite <- A. ring. Qed.
 Example ex_add_rel (g i1 i2 : K) : add_rel (Tg g i1) (Tg g i2) (Tg g (fadd i1 i2)).
-Proof. repeat split; intros mm r; try intros x; intros Hm; destruct mm; try discriminate Hm; cbn; ring. Qed.
+Proof. repeat split; intros mm r; intros; destruct mm; try discriminate; cbn; ring. Qed.
 End Example.
